@@ -64,9 +64,11 @@ type routeSpec struct {
 }
 
 type tableEvent struct {
-	T   string `json:"t"` // line | agg | tick
+	T   string `json:"t"` // line | agg | tick | now | modroute
 	B   string `json:"b,omitempty"`
 	Now int64  `json:"now,omitempty"`
+	Ri  int    `json:"ri,omitempty"` // modroute: index of the route whose filter is replaced at run time (Table.UpdateRoute)
+	M   *mSpec `json:"m,omitempty"`
 }
 
 type tableCase struct {
@@ -79,7 +81,7 @@ type tableCase struct {
 	Aggs      []aggSpec    `json:"aggs"`
 	Routes    []routeSpec  `json:"routes"`
 	Events    []tableEvent `json:"events"`
-	Reuse     bool         `json:"reuse"` // overwrite and reuse the input buffer after every Dispatch
+	Reuse     bool         `json:"reuse"`      // overwrite and reuse the input buffer after every Dispatch
 	StallAggs bool         `json:"stall_aggs"` // keep the aggregators from draining their inbox until all lines were dispatched
 	Recheck   bool         `json:"recheck"`
 }
@@ -112,7 +114,10 @@ func (r *recRoute) Match(s []byte) bool {
 	if r.inner != nil {
 		return r.inner.Match(s)
 	}
-	return r.m.Match(s)
+	r.mu.Lock()
+	m := r.m
+	r.mu.Unlock()
+	return m.Match(s)
 }
 func (r *recRoute) Snapshot() route.Snapshot {
 	if r.inner != nil {
@@ -155,18 +160,26 @@ func (r *recRoute) Update(opts map[string]string) error {
 	if r.inner != nil {
 		return r.inner.Update(opts)
 	}
-	return fmt.Errorf("capture route")
+	// a capture route changes its filter in place, like the real routes do (the table configuration is not republished)
+	m, err := matcher.New(opts["prefix"], opts["notPrefix"], opts["sub"], opts["notSub"], opts["regex"], opts["notRegex"])
+	if err != nil {
+		return err
+	}
+	r.mu.Lock()
+	r.m = m
+	r.mu.Unlock()
+	return nil
 }
 
 type tableEnv struct {
 	stallOut chan []byte
-	tab    *table.Table
-	routes []*recRoute
-	dests  [][]*dest.Destination
-	aggs   []*aggregator.Aggregator
-	clock  int64
-	ticks  []chan time.Time
-	sent   *recRoute
+	tab      *table.Table
+	routes   []*recRoute
+	dests    [][]*dest.Destination
+	aggs     []*aggregator.Aggregator
+	clock    int64
+	ticks    []chan time.Time
+	sent     *recRoute
 }
 
 var tblCounters = []string{"unit=Metric.direction=in", "unit=Err.type=invalid", "unit=Err.type=out_of_order",
@@ -342,17 +355,17 @@ func (e *tableEnv) barrier(aggOut bool) {
 }
 
 type evObs struct {
-	Cnt    [5]int64   `json:"cnt"`
-	Bad    *[3]string `json:"bad"`    // key(hex), msg(hex), err
-	NewBad int        `json:"newbad"` // number of bad records that appeared during this event
-	Routes [][]string `json:"routes"` // [routeIdx, linehex]
-	Dests  [][3]int64 `json:"dests"`  // route, dest, delta
-	Aggs   []int64    `json:"aggs"`
-	ValOk  bool       `json:"val_ok"`
-	TsOk   bool       `json:"ts_ok"`
-	Ts32   uint32     `json:"ts32"`
-	Bits   string     `json:"bits"` // float64 bits of the value token (decimal), oracle
-	Mutated bool      `json:"mutated"` // a delivered slice changed after the hand-off
+	Cnt     [5]int64   `json:"cnt"`
+	Bad     *[3]string `json:"bad"`    // key(hex), msg(hex), err
+	NewBad  int        `json:"newbad"` // number of bad records that appeared during this event
+	Routes  [][]string `json:"routes"` // [routeIdx, linehex]
+	Dests   [][3]int64 `json:"dests"`  // route, dest, delta
+	Aggs    []int64    `json:"aggs"`
+	ValOk   bool       `json:"val_ok"`
+	TsOk    bool       `json:"ts_ok"`
+	Ts32    uint32     `json:"ts32"`
+	Bits    string     `json:"bits"`    // float64 bits of the value token (decimal), oracle
+	Mutated bool       `json:"mutated"` // a delivered slice changed after the hand-off
 }
 
 func oracleFloats(line []byte) (bool, bool, uint32, string) {
@@ -418,6 +431,15 @@ func runTable(raw json.RawMessage) (interface{}, error) {
 			env.barrier(true)
 		case "now":
 			atomic.StoreInt64(&env.clock, ev.Now)
+		case "modroute":
+			if ev.M != nil && ev.Ri >= 0 && ev.Ri < len(env.routes) {
+				opts := map[string]string{"prefix": ev.M.Prefix, "notPrefix": ev.M.NotPrefix, "sub": ev.M.Sub, "notSub": ev.M.NotSub,
+					"regex": ev.M.Regex, "notRegex": ev.M.NotRegex}
+				if err := env.tab.UpdateRoute(env.routes[ev.Ri].key, opts); err != nil {
+					return nil, fmt.Errorf("modroute: %v", err)
+				}
+			}
+			env.barrier(false)
 		}
 		if c.StallAggs && evi == 0 {
 			// the first event is the warm-up point: once it is in its bucket, a tick makes every
